@@ -7,7 +7,8 @@
    (harness/cmd/trC02 -> Gen/SchedSyncGen.v; Gen/WaiterLeaf_bridge.v). *)
 From Coq Require Import List ZArith Bool Arith.
 From PV Require Import Model.SchedTree Model.SchedLeafConc Model.Waiter Model.WaiterLeaf.
-From PV Require Import Proofs.SchedLeafConcProofs Proofs.WaiterProofs Proofs.WaiterLeafProofs.
+From PV Require Import Proofs.SchedLeafConcProofs Proofs.WaiterProofs Proofs.WaiterLeafProofs Model.WaiterPool.
+From Coq Require Import Permutation.
 Import ListNotations.
 Local Open Scope Z_scope.
 
@@ -68,6 +69,17 @@ Theorem C04_seq_callers_reachable : forall n d a P fuel nows k g0 g g',
   lreach n d a P g0 g -> seq_callers fuel n d a P k nows g = Some g' -> lreach n d a P g0 g'.
 Proof. exact seq_callers_reach. Qed.
 Print Assumptions C04_seq_callers_reachable.
+
+(* Soundness of the attribution-free judgement of the `first` (and of a cancelled `comp`) run: only SOME tokens of
+   the profile are fired in the observed instant (the other callers still sleep), the schedule really started at S,
+   the harness counts the configured offsets from an instant t0 <= S (taken before the barrier opens).  If every
+   fired request is at or after the time of the token it consumed - under ANY hand-out of tokens to callers - then
+   never_ahead_b holds against t0 + offsets.  So a 0 bit means an early shot whatever the hand-out was. *)
+Theorem C04_first_never_ahead_sound : forall t0 S offs fired rest ats,
+  t0 <= S -> Permutation (fired ++ rest) (map (fun o => S + o) offs) -> Forall2 Z.le fired ats ->
+  never_ahead_b (map (fun o => t0 + o) offs) ats = true.
+Proof. exact part_never_ahead. Qed.
+Print Assumptions C04_first_never_ahead_sound.
 
 (* executable specification of the `first` cases *)
 Theorem C04_spec_first : forall ahead slow,
